@@ -3,6 +3,7 @@ INVARIANT C13_Defined
 INVARIANT C13_StepForm
 INVARIANT C13_Multiples
 INVARIANT C13_InDomain
+INVARIANT C13_InDomainUpToFloatNoise
 INVARIANT C13_Complete
 INVARIANT C13_CountBounds
 INVARIANT C13_LabelsDistinct
